@@ -338,11 +338,11 @@ Section Simple.
       + apply memb_false_In. apply int_no_comma.
   Qed.
 
-  Lemma filter_map_raw l : forallb raw_i32_ok l = true -> KeyValue.filter_map parse_i32_raw (map fmt_int l) = l.
+  Lemma filter_map_raw l : forallb i32_ok l = true -> KeyValue.filter_map pn_i32 (map fmt_int l) = l.
   Proof.
     induction l as [|x r IH]; [reflexivity|]. cbn [forallb map KeyValue.filter_map]. intros H.
     apply andb_true_iff in H. destruct H as [H1 H2].
-    rewrite (int_parse _ _ _ Hfmt x) by (unfold raw_i32_ok in H1; lia). rewrite (IH H2). reflexivity.
+    rewrite (pn_i32_fmt _ _ _ Hfmt x H1). rewrite (IH H2). reflexivity.
   Qed.
 
   Lemma csv_safe b r : forallb safec (csv (b :: r)) = true.
@@ -370,7 +370,7 @@ Section Simple.
     rewrite render_csv_tail, <- app_assoc. reflexivity.
   Qed.
 
-  Lemma editor_bookmarks st b r : forallb raw_i32_ok (b :: r) = true ->
+  Lemma editor_bookmarks st b r : forallb i32_ok (b :: r) = true ->
     parse_editor st (rline (TStr (ekey EBookmarks ++ colon_space) :: TInt b :: flat_map (fun x => [t_comma; TInt x]) r))
     = (set_ed_bookmarks st (b :: r), Ok).
   Proof.
